@@ -26,6 +26,7 @@ type verifGenCfg struct {
 	maxDepth int
 	strLen   int  // length of generated strings
 	strLen2  int  // if >= 0 a second possible length (chosen per string)
+	strLen3  int  // if > 0 a third possible length
 	inMsg    bool // strings live in Message (no STRINGBUFBIT) instead of Strings.B
 	numTag   byte // fixed number tag, 0 = symbolic
 	oneTag   byte // fixed 1-word tag, 0 = symbolic
@@ -62,8 +63,17 @@ func (g *verifGen) genString(n int) *verifNode {
 }
 
 func (g *verifGen) strLenChoice() int {
-	if g.cfg.strLen2 >= 0 && verifChoice("strlen", 2) == 1 {
-		return g.cfg.strLen2
+	if g.cfg.strLen2 >= 0 {
+		n := 2
+		if g.cfg.strLen3 > 0 {
+			n = 3
+		}
+		switch verifChoice("strlen", n) {
+		case 1:
+			return g.cfg.strLen2
+		case 2:
+			return g.cfg.strLen3
+		}
 	}
 	return g.cfg.strLen
 }
